@@ -1,30 +1,149 @@
 package main
 
 // propTable: the properties claimed, their level and an honest statement of what the obligations decide.
-// Filled in as checks are built; a property absent here is listed under not_applicable in MANIFEST.json.
+// A property absent here is listed under not_applicable in MANIFEST.json.
+//
+// Levels: "proof" where every clause of the property that can be phrased over one call or one data structure is a
+// discharged obligation; "other" where the property is a statement about all nodes / whole histories and the check
+// proves the node-local half only (the per-call obligations every global argument for the property rests on), with the
+// cross-node step left to the stated environment assumptions.
+const commonMethod = "Contract-based deductive verification of the real Go code: requires/ensures/loop-invariant/frame contracts in comment-only files " +
+	"(build tag verif), verification conditions generated from go/ssa of /repo's working tree on every run (exact 64-bit wrap-around arithmetic, " +
+	"nil/bounds/panic freedom as obligations, callers checked against callee contracts), discharged for all inputs by z3/cvc5. "
+
 var propTable = map[string]propInfo{
+	"C01": {
+		Level: "other",
+		Explanation: commonMethod + "Node-local half of state-machine safety: no operation rewrites or truncates the committed prefix of the local log " +
+			"(#committed-prefix-stable on raftLog.maybeAppend, raft.handleAppendEntries, raft.appendEntry, raft.becomeLeader; unstable.truncateAndAppend never touches " +
+			"entries below its 'after' point), the commit index never passes the end of the log (wf_raftLog) and only moves forward (hs_monotone on every function from " +
+			"Step down). The cross-node step (two nodes' committed prefixes agree) is not a per-call statement and rests on C03/C04/C06 plus the environment assumption " +
+			"E-leader-complete; it is not decided here.",
+	},
+	"C02": {
+		Level: "other",
+		Explanation: commonMethod + "Node-local half of election safety: a node turns leader only through becomeLeader, whose precondition #won is that the recorded votes " +
+			"are a Won tally for its (joint) configuration (proved at the single call site in stepCandidate); a vote is recorded first-wins (poll/RecordVote); " +
+			"Vote changes within a term only from None (hs_monotone, proved for every function from Step down); a vote is granted only to an up-to-date candidate " +
+			"(Step#vote-needs-up-to-date-log); campaigning bumps the term by exactly one and votes for self. That two nodes cannot both collect a quorum in one term is " +
+			"the global step (quorum intersection, C12) and is not decided here.",
+	},
+	"C03": {
+		Level: "other",
+		Explanation: commonMethod + "Within one log: contiguity and non-decreasing terms are representation invariants (wf_unstable, wf_ms, wf_raftLog) preserved by every " +
+			"operation. Across an append: raftLog.maybeAppend accepts exactly when (prev.index, prev.term) matches, then holds the leader's entries at the leader's terms " +
+			"(#matches-leader), truncates only from the first real conflict (findConflict), and never touches a slice previously handed out (no-overwrite frames). " +
+			"maybeSendAppend sends prev = (Next-1, term(Next-1)). The cross-node induction (Log Matching for all pairs of nodes) is not decided here.",
+	},
+	"C04": {
+		Level: "other",
+		Explanation: commonMethod + "Node-local half: votes go only to candidates whose (lastTerm, lastIndex) is at least the voter's (Step#vote-needs-up-to-date-log, " +
+			"raftLog.isUpToDate#def); a leader commits only entries of its own term (raftLog.maybeCommit#own-term, raft.maybeCommit#quorum-own-term); becomeLeader appends " +
+			"its no-op entry at the new term. The intersection argument over two quorums is not decided here.",
+	},
+	"C05": {
+		Level: "other",
+		Explanation: commonMethod + "raft-level half: every message that promises something about durable state (MsgAppResp, MsgVoteResp, MsgPreVoteResp, including the " +
+			"leader's self-acknowledgement) is routed to msgsAfterAppend and never to msgs (raft.send#routing-*, and #one-deferred-reply / #self-ack-deferred / " +
+			"#vote-replies-deferred on the handlers, appendEntry, becomeLeader and Step); a stale-term MsgStorageAppendResp does not stabilise entries " +
+			"(Step#stale-term-ignored); stableTo drops exactly the acknowledged prefix and only on an (index, term) match. RawNode's Ready/Advance ordering is not under " +
+			"contract yet: the property's crash-recovery half is not decided here.",
+	},
+	"C06": {
+		Level: "proof",
+		Explanation: commonMethod + "Every way the commit index moves is a discharged obligation: on a leader only through raft.maybeCommit, whose postcondition is that the " +
+			"new index is acknowledged (by Match) by a majority of every non-empty voter set (jointCommittedByMatch, counting form), is in the log and has the leader's own " +
+			"term; stepLeader moves it only on a non-rejecting MsgAppResp (#commit-only-on-ack) and raises exactly the sender's Match (#match-only-up; MsgSnapStatus, " +
+			"MsgUnreachable, heartbeats, rejections keep every Match); on a follower commit = max(old, min(leaderCommit, lastNewIndex)) (#commit-clamp) or an installed " +
+			"snapshot's index; sendHeartbeat advertises min(Match, committed); the reply to a MsgSnap acknowledges exactly the commit index; committed <= lastIndex is a " +
+			"representation invariant. Assumes acknowledgements are truthful (E-msg-wf).",
+	},
+	"C07": {
+		Level: "proof",
+		Explanation: commonMethod + "Two-state invariant hs_monotone (Term never decreases; within a term Vote changes only from None; committed never decreases) is a " +
+			"postcondition of every function from raft.Step and tickElection down that can write the hard state (become*, reset, campaign, hup, the handlers, restore, " +
+			"commitTo, maybeCommit, appliedTo, the three step functions); Step adds the exact term rule (#term-rule), #prevote-changes-nothing and #stale-term-ignored. " +
+			"Not under contract (assumed): appliedSnap, switchToConfig, tickHeartbeat, RawNode's HardState emission.",
+	},
+	"C08": {
+		Level: "proof",
+		Explanation: commonMethod + "log.go level: nextCommittedEnts returns exactly the window (applying, maxAppliable] cut by the size budget (non-empty maximal prefix), " +
+			"acceptApplying / appliedTo move the cursors monotonically with applied <= applying <= committed as representation invariant and the size accounting exact; " +
+			"raft.appliedTo never moves applied backwards (max) and stays within commit. RawNode's hand-over of the window is not under contract yet.",
+	},
+	"C09": {
+		Level: "other",
+		Explanation: commonMethod + "Node-local half: raft.restore ignores a snapshot at or below the commit index, fast-forwards commit (without touching the log) when the log " +
+			"already matches (index, term), otherwise installs it (commit = last = snapshot index), only on a follower that is a member of the snapshot's configuration, " +
+			"and keeps the flow-control limits; raftLog.restore / unstable.restore / stableSnapTo postconditions; the MsgSnap reply acknowledges exactly the commit index; " +
+			"maybeSendSnapshot sets PendingSnapshot to the snapshot index (<= commit). confchange.Restore and switchToConfig are assumed contracts here.",
+	},
+	"C10": {
+		Level: "other",
+		Explanation: commonMethod + "Node-local half: a leader accepts a conf-change entry only if no possibly-unapplied one is pending (pendingConfIndex <= applied) unless " +
+			"validation is disabled, otherwise replaces it by an empty entry, and records exactly the index the accepted entry will get (stepLeader#conf-gate, #conf-index, " +
+			"loop invariant #pending-conf); becomeLeader sets pendingConfIndex to its last index; hup refuses to campaign while a committed conf change is unapplied. " +
+			"hasUnappliedConfChanges, the confchange package and switchToConfig are assumed contracts; that all nodes derive the same configurations is not decided here.",
+	},
+	"C11": {
+		Level: "other",
+		Explanation: commonMethod + "Node-local half of ReadOnlySafe: a read request is queued at the commit index of the moment (addRequest), only once the leader has " +
+			"committed an entry of its own term (otherwise it is parked: stepLeader#read-not-before-own-term-commit, released by releasePendingReadIndexMessages only " +
+			"after such a commit), released only when a majority of every voter set has acknowledged a heartbeat sent after it (readOnly.maybeAdvance#release in counting " +
+			"form, recvAck keeps the maximum), in queue order and as a prefix; a singleton config answers at once at the commit index. Linearizability across nodes is not decided here.",
+	},
+	"C12": {
+		Level: "proof",
+		Explanation: commonMethod + "quorum.MajorityConfig.{VoteResult,CommittedIndex} and quorum.JointConfig.{VoteResult,CommittedIndex}: " +
+			"the postconditions are the property's own sentences in counting form (cnt over the voter map): Won iff yes >= n/2+1, Lost iff yes+missing < n/2+1; " +
+			"committed index r with #{ack >= r} >= n/2+1 (r > 0) and #{ack > r} < n/2+1; joint = minimum with an empty half imposing no constraint. " +
+			"Map-range loops are verified for an arbitrary enumeration order with partial-count invariants; the tracker glue (TallyVotes, Committed, QuorumActive, " +
+			"RecordVote, IsSingleton) and readOnly.maybeAdvance are proved against the same specifications.",
+	},
+	"C14": {
+		Level: "other",
+		Explanation: commonMethod + "For every function under contract, each Panicf/panic site, nil dereference, index/slice bound and division is an obligation discharged " +
+			"under the function's stated usage preconditions (labelled [C14]: E-msg-wf message well-formedness, E-ready-contract, E-app-conf, A-arith); callers discharge " +
+			"callee preconditions. What is proved is: no assertion fires in these functions when the listed preconditions hold; that contract-respecting usage implies " +
+			"the preconditions at the API boundary (RawNode) is not decided (RawNode is not under contract yet). Found and fixed F-1 (MemoryStorage.Term).",
+	},
+	"C16": {
+		Level: "proof",
+		Explanation: commonMethod + "limitSize (non-empty maximal prefix within the budget), Inflights ring buffer (count <= size; Add requires not Full; FreeLE frees exactly " +
+			"the maximal prefix), Progress flow control (SentEntries/IsPaused), maybeSendAppend (no entries while the window is full; message size within maxMsgSize unless " +
+			"a single entry), uncommitted-size accounting (increase refuses exactly when it would pass the limit and the tail is non-empty; reduce saturates at 0; " +
+			"Step reduces by the payload size of what was applied), restore keeps MaxInflight/MaxInflightBytes.",
+	},
+	"C17": {
+		Level: "other",
+		Explanation: commonMethod + "Node-local half: a vote request inside the leader lease is ignored without any state change (Step#in-lease-ignored); MsgPreVote never " +
+			"changes term, vote, role or timers (#prevote-changes-nothing); a granted MsgPreVoteResp from the future does not make the node adopt that term (#term-rule); " +
+			"a pre-candidate starts the real election only on a Won pre-vote tally (campaign#prevote-won) and tallies only its own response type (stepCandidate#ignored); " +
+			"CheckQuorum: the leader steps down iff no quorum was recently active and then marks every peer inactive (stepLeader#check-quorum, QuorumActive in counting form); " +
+			"leader transfer bookkeeping (#transfer). The timing bound over several ticks is not decided here.",
+	},
 	"C18": {
 		Level: "proof",
-		Explanation: "Contract-based deductive verification of the log storage views against an abstract log: MemoryStorage (compaction point = ents[0].Index, " +
+		Explanation: commonMethod + "The log storage views against an abstract log: MemoryStorage (compaction point = ents[0].Index, " +
 			"contiguous entries) and unstable (offset, contiguous entries, pending snapshot) carry representation invariants (wf_ms, wf_unstable) that every " +
 			"operation is proved to preserve, and each query/update has a functional postcondition over the abstract view: exact ErrCompacted/ErrUnavailable ranges, " +
 			"term-at, entry windows with limitSize semantics (non-empty maximal prefix within the budget), Append = keep-prefix ++ new entries, Compact, " +
 			"stableTo dropping exactly the acknowledged prefix only when (index, term) matches (ABA), truncateAndAppend's three cases, and no-overwrite frames " +
-			"(no cell of a previously exposed backing-array window is written). Induction over the operation sequence is the trivial one (invariant + per-call contracts).",
+			"(no cell of a previously exposed backing-array window is written); the combined raftLog view (term, slice, entries, firstIndex/lastIndex) is proved against both.",
 	},
-	"C12": {
-		Level: "proof",
-		Explanation: "Contract-based deductive verification of quorum.MajorityConfig.{VoteResult,CommittedIndex} and quorum.JointConfig.{VoteResult,CommittedIndex}: " +
-			"the postconditions are the property's own sentences in counting form (cnt over the voter map): Won iff yes >= n/2+1, Lost iff yes+missing < n/2+1; " +
-			"committed index r with #{ack >= r} >= n/2+1 (r > 0) and #{ack > r} < n/2+1; joint = minimum with an empty half imposing no constraint. " +
-			"Map-range loops are verified for an arbitrary enumeration order with partial-count invariants; all obligations are unbounded VCs over the real SSA.",
+	"C19": {
+		Level: "other",
+		Explanation: commonMethod + "Partial: every verified postcondition that fixes an output exactly makes that output a function of the inputs; the places where Go's " +
+			"map iteration order could leak are covered where under contract: TallyVotes counts are order-free, campaign sends in sorted id order (loop invariants over the " +
+			"sorted slice), JointConfig.IDs / CommittedIndex / VoteResult are proved for an arbitrary enumeration order, and callers of ProgressTracker.Visit are verified " +
+			"against a sorted-order iteration. Visit's own body (which establishes that order) and lockedRand are assumed contracts, so a change inside Visit is not detected.",
 	},
-	"C16": {
-		Level: "proof",
-		Explanation: "Contract-based deductive verification of the real Go code: every function that implements a clause of the property " +
-			"(limitSize, Inflights.{Add,FreeLE,grow,reset,Full}, ...) carries requires/ensures/loop-invariant contracts in a comment-only file; " +
-			"govc rebuilds go/ssa from /repo's working tree, generates weakest-precondition style verification conditions " +
-			"(postconditions, loop-invariant entry/preservation, variants, callee preconditions at call sites, nil/bounds/panic freedom) " +
-			"with exact 64-bit wrap-around arithmetic, and discharges each one with z3/cvc5 for all inputs, with no bound.",
+	"C20": {
+		Level: "other",
+		Explanation: commonMethod + "Node-local half: a proposal is either dropped with nothing changed (ErrProposalDropped: no leader, forwarding disabled, leader transfer in " +
+			"progress, not a member, size limit — #prop-dropped / #dropped-untouched) or forwarded unchanged to the leader (stepFollower#prop-forwarded) or appended as exactly " +
+			"len(entries) new entries stamped (Term, last+1+i) with the inputs' type/term/index/payload length untouched (appendEntry#appended, #inputs-untouched, " +
+			"stepLeader#prop-result); raft itself originates only the empty entry of a new leader and neutralised conf changes. Payload bytes of the clones " +
+			"(#faithful) are stated but not yet discharged; duplication across retries is a history property and is not decided here.",
 	},
 }
